@@ -908,3 +908,91 @@ func (c *Ctx) globalFuncTable(e *an.Expr) ([]string, bool) {
 	}
 	return out, true
 }
+
+// globalConstMap returns the constant integer entries the package initialiser
+// puts into a package-level map variable that nothing else writes, given an
+// expression denoting the variable.
+func (c *Ctx) globalConstMap(e *an.Expr) (map[int64]int64, bool) {
+	if e == nil || e.Op != an.OpGlobal {
+		return nil, false
+	}
+	var g *ssa.Global
+	for _, pkg := range c.P.SSA.AllPackages() {
+		if !load.InModulePkg(pkg) {
+			continue
+		}
+		for _, m := range pkg.Members {
+			if gv, ok := m.(*ssa.Global); ok && pkg.Pkg.Name()+"."+gv.Name() == e.Name {
+				g = gv
+			}
+		}
+	}
+	if g == nil {
+		return nil, false
+	}
+	// no writer outside the initialiser: no store to g, no map update or delete on a value loaded from g
+	for _, fn := range c.srcFuncs() {
+		for _, b := range fn.Blocks {
+			for _, in := range b.Instrs {
+				switch x := in.(type) {
+				case *ssa.Store:
+					if x.Addr == ssa.Value(g) {
+						return nil, false
+					}
+				case *ssa.MapUpdate:
+					if ld, ok := x.Map.(*ssa.UnOp); ok && ld.X == ssa.Value(g) {
+						return nil, false
+					}
+				case ssa.CallInstruction:
+					if bi, ok := x.Common().Value.(*ssa.Builtin); ok && (bi.Name() == "delete" || bi.Name() == "clear") {
+						for _, a := range x.Common().Args {
+							if ld, ok := a.(*ssa.UnOp); ok && ld.X == ssa.Value(g) {
+								return nil, false
+							}
+						}
+					}
+				}
+			}
+		}
+	}
+	init := g.Pkg.Func("init")
+	if init == nil {
+		return nil, false
+	}
+	out := map[int64]int64{}
+	found := false
+	for _, b := range init.Blocks {
+		for _, in := range b.Instrs {
+			st, ok := in.(*ssa.Store)
+			if !ok || st.Addr != ssa.Value(g) {
+				continue
+			}
+			mm, ok := st.Val.(*ssa.MakeMap)
+			if !ok || mm.Referrers() == nil {
+				return nil, false
+			}
+			found = true
+			for _, r := range *mm.Referrers() {
+				mu, ok := r.(*ssa.MapUpdate)
+				if !ok {
+					continue
+				}
+				k, okK := mu.Key.(*ssa.Const)
+				v, okV := mu.Value.(*ssa.Const)
+				if !okK || !okV || k.Value == nil || v.Value == nil {
+					return nil, false
+				}
+				kv, e1 := constant.Int64Val(constant.ToInt(k.Value))
+				vv, e2 := constant.Int64Val(constant.ToInt(v.Value))
+				if !e1 || !e2 {
+					return nil, false
+				}
+				if _, dup := out[kv]; dup {
+					return nil, false
+				}
+				out[kv] = vv
+			}
+		}
+	}
+	return out, found
+}
